@@ -101,6 +101,11 @@ func (d *badgerNodeDB) cleanMultipartLocked(removeNodes bool) error {
 		// No multipart in progress, but it's not an error to call in a situation like this.
 		return nil
 	}
+	if lastFinalizedVersion, exists := d.meta.getLastFinalizedVersion(); exists && lastFinalizedVersion >= version {
+		// The restored version has already been finalized (e.g. finalization was interrupted right
+		// before this cleanup), so its nodes are live and only the log needs to be removed.
+		removeNodes = false
+	}
 
 	txn := d.db.NewTransactionAt(tsMetadata, false)
 	defer txn.Discard()
